@@ -24,7 +24,14 @@ void mpq_ILLlp_cache_free(mpq_ILLlp_cache *C) { g_cache_freed = 1; }
 void mpq_ILLlp_basis_free(mpq_ILLlp_basis *B) { g_basis_freed = 1; }
 void mpq_ILLsimplex_set_bound(mpq_lpinfo *lp, const mpq_t *objbound, int sense) { g_lib_called = 1; }
 int mpq_ILLlib_chgcoef(mpq_lpinfo *lp, int r, int c, mpq_t coef) { STUB_RET(); }
-int mpq_ILLlib_chgsense(mpq_lpinfo *lp, int num, int *rowlist, char *sense) { STUB_RET(); }
+int mpq_ILLlib_chgsense(mpq_lpinfo *lp, int num, int *rowlist, char *sense)
+{	/* assumed fact of ILLlib_chgsense (decided in lib/chgsense_b): it succeeds only if every listed row index is in range; list length capped (constant-range quantifier) */
+	g_lib_called = 1; g_lib_rv = nondet_rv();
+#ifdef QSV_CBMC
+	if (g_lib_rv == 0) { __CPROVER_assume(num <= QSV_MAPCAP); __CPROVER_assume(__CPROVER_forall { int k; (0 <= k && k < QSV_MAPCAP) ==> (k < num ==> (0 <= rowlist[k] && rowlist[k] < lp->O->nrows)) }); }
+#endif
+	return g_lib_rv;
+}
 int mpq_ILLlib_chgrange(mpq_lpinfo *lp, int indx, mpq_t coef) { STUB_RET(); }
 int mpq_ILLlib_chgobj(mpq_lpinfo *lp, int indx, mpq_t coef) { STUB_RET(); }
 int mpq_ILLlib_chgrhs(mpq_lpinfo *lp, int indx, mpq_t coef) { STUB_RET(); }
@@ -64,6 +71,9 @@ static mpq_QSdata *mk_qsdata(void)
 	{ IN_BOOL(has_cache); p->cache = has_cache ? qsv_alloc(sizeof *p->cache) : 0; }
 	{ IN_BOOL(has_basis); p->basis = has_basis ? qsv_alloc(sizeof *p->basis) : 0; }
 	if (p->basis) { IN_BOOL(has_rownorms); p->basis->rownorms = has_rownorms ? (mpq_t *) qsv_alloc(sizeof(mpq_t)) : 0; }
+#if defined(FN_QSchange_senses) || defined(FN_QSchange_sense)
+	{ IN_INT(nrows); ASSUME(1 <= nrows && nrows <= QSV_MAPCAP); p->qslp->nrows = nrows; if (p->basis) { IN_BOOL(has_rstat); p->basis->nrows = nrows; p->basis->rstat = has_rstat ? qsv_alloc(QSV_MAPCAP) : 0; } }
+#endif
 	{ IN_INT(qstatus); p->qstatus = qstatus; }
 	{ IN_BOOL(factorok); p->factorok = factorok; }
 	{ IN_INT(objsense); ASSUME(objsense == QS_MIN || objsense == QS_MAX); p->qslp->objsense = objsense; }
@@ -85,7 +95,10 @@ void harness(void)
 #if defined(FN_QSchange_coef)
 	rv = mpq_QSchange_coef(p, a, b, num); expect_f0 = 1;
 #elif defined(FN_QSchange_senses)
-	rv = mpq_QSchange_senses(p, a, 0, 0); expect_f0 = 1;
+	{	/* real lists: after a successful library edit the wrapper walks them to keep the stored basis loadable */
+		int *rl = qsv_alloc(sizeof(int) * QSV_MAPCAP); char *sl = qsv_alloc(QSV_MAPCAP);	/* capacity QSV_MAPCAP; the stub rejects longer lists */
+		rv = mpq_QSchange_senses(p, a, rl, sl); expect_f0 = 1;
+	}
 #elif defined(FN_QSchange_sense)
 	ASSUME(-128 <= b && b <= 127);	/* the sense is a character; wider ints are truncated by the (char) conversion */
 	rv = mpq_QSchange_sense(p, a, b); expect_f0 = 1;
